@@ -143,6 +143,23 @@ def templates(tier="quick"):
     add("dyndep_output_on_scanned_leaf_midbuild", [Variant("v0", stm5b)], ["top", "y", "z"], files={"dd.in": dd5, "n": "pre-existing\n"},
         tags=["dyndep"])
 
+    # the dyndep file spells the cycle-closing input the way generated files do (./circ, zz/../circ)
+    for spn, sp in (("dot", "./circ"), ("dotdot", "zz/../circ")):
+        dds = dyndep_text([("out", [], [sp], False)])
+        add("dyndep_cycle_present_spelled_" + spn, [Variant("v0", stm)], ["out", "circ"], files={"dd.in": dds, "dd": dds}, tags=["dyndep", "spelling"])
+        add("dyndep_cycle_midbuild_spelled_" + spn, [Variant("v0", stm)], ["out", "circ"], files={"dd.in": dds}, tags=["dyndep", "spelling"])
+
+    # the manifest is regenerated by a restat generator statement that also writes a depfile; the depfile names x, and x
+    # is made from build.ninja: the regeneration leaves the manifest untouched, the build proper must still see the cycle
+    def regen(name):
+        return Variant(name, [Stmt("build.ninja", ex=["build.ninja.in"], hidden=["x"], depfile=True, generator=True, restat=True, copy=True),
+                              Stmt("x", ex=["build.ninja"]), Stmt("y", ex=["s"])], defaults=["y"])
+    rv = regen("m0")
+    rops = [{"op": "touch", "path": "build.ninja.in", "label": "touch build.ninja.in"}]
+    T.append(scenario("c17/regenerated_manifest_depfile_closes_cycle", "c17", [rv], files={"build.ninja.in": rv.manifest(), "x": "old\n"},
+                      ops=rops + [ninja_op(targets=["x"], j=1), ninja_op(targets=["y"], j=1), ninja_op(j=2, targets=["x", "y"])], init=[0], depth=2,
+                      tags=["cycle", "manifest-regen", "discovered"]))
+
     # tools that walk *recorded* dependencies (missingdeps, deps) on a graph whose cycle lies below the statement that
     # recorded them and does not contain the generator of the recorded header
     for kind, kw in (("gcc", {"deps": "gcc"}), ("msvc", {"deps": "msvc"})):
@@ -156,7 +173,8 @@ def templates(tier="quick"):
     dd3 = dyndep_text([("out", ["circ"], [], False)])
     stm3 = [Stmt("dd", ex=["dd.in"], copy=True), Stmt("in", ex=["circ"]),
             Stmt("out", ex=["in"], oo=["dd"], dyndep="dd", extra_outs=["circ"])]
-    ops3 = [{"op": "edit", "path": "dd.in", "label": "edit dd.in"}, {"op": "rm", "path": "dd", "label": "rm dd"},
+    # (touched, not edited: an edit would make the dyndep text invalid, and an invalid file supplies no information)
+    ops3 = [{"op": "touch", "path": "dd.in", "label": "touch dd.in"}, {"op": "rm", "path": "dd", "label": "rm dd"},
             {"op": "rm", "path": "out", "label": "rm out"}]
     add("dyndep_output_cycle_midbuild", [Variant("v0", stm3)], ["out", "in"], files={"dd.in": dd3, "circ": "pre-existing\n"},
         extra_ops=ops3, depth=3, tags=["dyndep"])
